@@ -182,3 +182,9 @@ Definition allowed_alias (w : string * string * string * string) : bool :=
   || ((String.eqb v "ipmiSensorEntityIDs" || String.eqb v "dcmiSensorEntityIDs") && String.eqb kind "arg:getSensorMap").
 Lemma tie_aliases : forallb allowed_alias G.global_aliases = true.
 Proof. vm_compute. reflexivity. Qed.
+(* ---- the caller's own values: no function of package bmc writes THROUGH a parameter other than its receiver (a field of
+   the caller's *V2SessionOpts / *SessionOpts, an element of its cipher-suite slice, ...), nor re-slices a slice parameter
+   to length zero to append into it.  Options and preference lists are shared by callers across connections and
+   goroutines; the library only reads them.  (Command values are exempt: a caller hands one over to be written.) *)
+Lemma tie_param_writes : G.param_writes = [].
+Proof. vm_compute. reflexivity. Qed.
